@@ -8,7 +8,7 @@ from pyvc.spec import ContractSet
 
 HOME = os.environ.get('VERIF_HOME', os.path.dirname(os.path.dirname(os.path.abspath(__file__))))
 
-_MODULES = ['ghosts', 'externals', 'datatypes', 'consensus', 'coinstate', 'manager', 'lemmas']
+_MODULES = ['ghosts', 'externals', 'datatypes', 'consensus', 'coinstate', 'manager', 'network', 'lemmas']
 _cset = None
 
 
@@ -31,6 +31,8 @@ def make_verifier(seed=0, timeout_ms=20000):
     v = Verifier(build_registry(), cs, timeout_ms=timeout_ms, seed=seed)
     v.structural_classes = set(STRUCTURAL)
     v.key_projection = {'Transaction': _tx_key}
+    from . import state
+    state.install(v)
     return v
 
 
@@ -46,6 +48,9 @@ def _tx_key(eng, x, st):
 
 # level / notes per property; functions and lemmas come from the props tags on the contracts
 PROPS = {
+    'C09': dict(level='proof',
+                explanation="path contracts of ConnectedRemotePeer.handle_block_received over the chain manager, the block "
+                            "store's write buffer, the committed blocks (ghost) and the relayed sequence (ghost)"),
     'C13': dict(level='proof',
                 explanation="pool invariant (each pending transaction valid by itself and at the head; no output referenced "
                             "twice) as pre/post-condition of its three writers; admission appends exactly the transaction "
